@@ -379,6 +379,11 @@ def jobs(tier):
             for m in (2, 12):
                 J.append(("job_add", dict(mode=mode, rep="cal", unit="days", nlo=-dlim, nhi=dlim,
                                           ranges={"M": (m, m)})))
+        # carries longer than a year (the day walk crosses a whole year, a leap day and the year number)
+        for lo, hi in ((355, 372), (-372, -355)) + (((725, 735),) if mode in ("gregorian", "366day") else ()):
+            for rg in ({"M": (2, 3), "D": (1, 3)}, {"M": (12, 12), "D": (29, 31)}):
+                J.append(("job_add", dict(mode=mode, rep="cal", unit="days", nlo=lo, nhi=hi, ranges=rg)))
+        J.append(("job_add", dict(mode=mode, rep="cal", unit="weeks", nlo=51, nhi=53, ranges={"M": (2, 3), "D": (1, 3)})))
         for unit, lim in (("hours", 60), ("seconds", 90000)):
             for m in ((1, 2), (3, 7), (8, 12)):
                 J.append(("job_add", dict(mode=mode, rep="cal", unit=unit, nlo=-lim, nhi=lim,
@@ -440,7 +445,7 @@ INFO = {
     "bounds": {
         "quick": {"years": "-1 000 000 .. 999 999", "offsets": "-99:59..+99:59", "time": "whole seconds incl. 24:00:00",
                   "ordinal": "days +-800, weeks +-60, hours +-100, minutes +-3000, seconds +-90000 (int and float typed)",
-                  "calendar": "days +-40 from every start date (all months: gregorian, 360day; Feb and Dec: 365day, 366day), hours +-60, seconds +-90000",
+                  "calendar": "days 355..372, -372..-355 (gregorian, 366day: also 725..735) and weeks 51..53 from 1-3 Feb/Mar and 29-31 Dec in every mode; days +-40 from every start date (all months: gregorian, 360day; Feb and Dec: 365day, 366day), hours +-60, seconds +-90000",
                   "week": "gregorian: days +-20, weeks +-60, hours +-100 from every week; other modes: days +-20 from weeks 50-53",
                   "decimal forms": "hh,ii with fraction .25/.75 and hh:mm,nn with fraction .5 (thorough: also .5/.25/.875), every date and offset, "
                                    "hours +-60, minutes +-3000, seconds +-90000, days +-40 on ordinal dates in all modes; calendar dates of Jan, Feb, Dec and week dates "
